@@ -92,6 +92,47 @@ pub fn check_untracked(_prog: &Prog, log: &[Stamped]) -> (Vec<String>, Counts) {
 
 // ------------------------------------------------------------------ C06 / C07
 
+/// Collide mode (all identity values hash alike): which occurrence keeps which id is decided by
+/// creation order, so the identity model of `check_identity` does not apply. What must still hold:
+/// an id (slot and generation) never denotes two different identity values over the whole history,
+/// and one execution never creates two structs with the same id.
+pub fn check_id_functional(log: &[Stamped]) -> (Vec<String>, Counts) {
+    let mut viol = Vec::new();
+    let mut c = Counts::default();
+    let mut denotes: HashMap<(u32, u32), (u16, u32)> = HashMap::new();
+    for e in mon::executions(log) {
+        if e.act.f != FnK::Maker || e.value.is_none() {
+            continue;
+        }
+        let mut here: BTreeSet<(u32, u32)> = BTreeSet::new();
+        for (idx, g, f, _pos) in &e.made {
+            if !here.insert((*idx, *g)) {
+                viol.push(format!(
+                    "maker n{} created two structs with the same id ({idx},{g}) in one execution",
+                    e.act.node
+                ));
+            }
+            match denotes.get(&(*idx, *g)) {
+                Some((old, m)) if *old != f[0] => {
+                    viol.push(format!(
+                        "id ({idx},{g}) was given to a struct with identity value {old} (maker n{m}) and now to one with identity value {} (maker n{}): structs with different identity values must be distinct",
+                        f[0], e.act.node
+                    ));
+                }
+                Some(_) => c.inc("colliding_identity_kept"),
+                None => {
+                    c.inc("colliding_identity_new_id");
+                    denotes.insert((*idx, *g), (f[0], e.act.node));
+                }
+            }
+        }
+        if !viol.is_empty() {
+            break;
+        }
+    }
+    (viol, c)
+}
+
 pub fn check_identity(prog: &Prog, log: &[Stamped], ctx: &Ctx) -> (Vec<String>, Counts) {
     let mut viol = Vec::new();
     let mut c = Counts::default();
